@@ -114,6 +114,39 @@ def nameStep (line : String) : String :=
       let s2 := (s1.register 0 "/zz" (some .read) false none).1
       let s3 := (s2.unregisterKey 0 "/zz" true).1
       "R " ++ String.intercalate "," (sortS ((s3.clients[0]?.map Client.namespaces).getD []))
+  | ["cacc", ns, k] =>
+      -- a client in namespace ns registers k (WRITE), writes 7 by attribute, reads it back by attribute, by get() of the
+      -- absolute name, and statically
+      let s0 : BB := ({} : BB).newClient (d ns) |>.1
+      let r0 := s0.register 0 (d k) (some .write) false none
+      let r1 := r0.1.setattr 0 (d k) (.int 7)
+      let r2 := r1.1.getattr 0 (d k)
+      let a := absNameS (clientNsS (d ns)) (d k)
+      let r3 := r2.1.get 0 a
+      "R " ++ String.intercalate "|" [resStr r0.2, resStr r1.2, resStr r2.2, resStr r3.2, resStr (r3.1.sget a)]
+  | ["cshare", nsA, kA, nsB, kB] =>
+      -- two clients: A writes 1 through kA, B writes 2 through kB, A reads: same location iff same absolute name
+      let s0 : BB := ({} : BB).newClient (d nsA) |>.1
+      let s1 := s0.newClient (d nsB) |>.1
+      let s2 := (s1.register 0 (d kA) (some .write) false none).1
+      let s3 := (s2.register 1 (d kB) (some .write) false none).1
+      let s4 := (s3.setattr 0 (d kA) (.int 1)).1
+      let s5 := (s4.setattr 1 (d kB) (.int 2)).1
+      "R " ++ resStr (s5.getattr 0 (d kA)).2
+  | ["cremap", nsA, kA, loc] =>
+      -- A's key kA is remapped to loc; another client owns loc and A's own name. set(overwrite=False) must look at
+      -- the remap target: (target occupied) -> False, value kept; (only own name occupied) -> True, target written
+      let run (occupyTarget : Bool) : String :=
+        let s0 : BB := ({} : BB).newClient (d nsA) |>.1
+        let s1 := s0.newClient "" |>.1
+        let own := absNameS (clientNsS (d nsA)) (d kA)
+        let s2 := (s1.register 0 (d kA) (some .write) false (some loc)).1
+        let s3 := (s2.register 1 loc (some .write) false none).1
+        let s4 := (s3.register 1 own (some .write) false none).1
+        let s5 := (s4.setattr 1 (if occupyTarget then loc else own) (.int 1)).1
+        let r := s5.set 0 (d kA) (.int 2) false
+        resStr r.2 ++ "," ++ resStr (r.1.sget loc) ++ "," ++ resStr (r.1.sget own)
+      "R " ++ run true ++ "|" ++ run false
   | _ => "bad-op"
 
 end Bb
